@@ -41,6 +41,14 @@ VARIANTS = {
     "mut-no-stopall": (SMALL2, dict(CallsStopAll=False), "PROP:DrainReleases"),
 }
 
+# label-to-label transitions of FlowQueueI (the model of the code as it is): coverage of the forced schedules
+EDGES = {("R", "Arrive", "Enroll"), ("R", "Arrive", "Refuse"), ("R", "Enroll", "Wait"), ("R", "Enroll", "Refuse"),
+         ("R", "Wait", "Return"), ("R", "Return", "Remove"), ("R", "Remove", "Done"), ("R", "Refuse", "Done"),
+         ("loop", "Tick", "Pop"), ("loop", "Tick", "Tick"), ("loop", "Pop", "Grant"), ("loop", "Pop", "Requeue"),
+         ("loop", "Pop", "Pop"), ("loop", "Pop", "Tick"), ("loop", "Grant", "Pop"), ("loop", "Grant", "Tick"),
+         ("loop", "Requeue", "Tick"), ("watcher", "Scan", "Signal"), ("watcher", "Signal", "Scan"),
+         ("shutdown", "Cancel", "Done"), ("clock", "Tk", "Tk")}
+
 CLASS = {"T_Order": "order-inversion", "T_SizeBound": "size-bound", "T_NoCrash": "crash", "T_InTTL": "no-verdict-in-ttl",
          "T_OneVerdict": "double-decision", "T_OnlyIfQuota": "allowed-without-quota", "T_Protocol": "protocol"}
 
@@ -175,6 +183,8 @@ def predicted_events(steps):
             ev.append(("expire", st["w"]))
         elif p == "shutdown":
             ev.append(("shutdown",))
+        elif p == "loop" and fr == "Tick" and to != "Pop":
+            ev.append(("drain",))
         elif fr == "Arrive" and p.startswith("r"):
             ev.append(("arrive", p))
         elif fr == "Enroll" and to != "Refuse":
@@ -192,7 +202,7 @@ def observed_events(hist):
         n = e["ev"]
         if n == "free":
             break           # from here on nothing is steered any more
-        if n in ("pick", "shutdown", "crash"):
+        if n in ("pick", "shutdown", "crash", "drain"):
             ev.append((n,))
         elif n == "quota":
             ev.append((n, e["id"], e["ok"]))
@@ -237,8 +247,29 @@ def witness_of(hist, at, invariant):
     decided = {x.get("id") for x in before if x["ev"] in ("grant", "expire", "verdict")}
     w["after_shutdown"] = any(x["ev"] == "shutdown" for x in before)
     if w["class"] == "order-inversion":
-        # the overtaken request had been pushed back after a blocked attempt (re-enqueued with a new timestamp)
-        w["after_requeue"] = any(x["ev"] == "requeue" and x["id"] not in decided and x["id"] != e.get("id") for x in before)
+        # which waiting requests were overtaken (same rule as FlowQueueP.Viol, only to describe the witness): were they
+        # all of the admitted request's own priority, and had each been pushed back after a blocked attempt
+        # (re-enqueued with a new timestamp) - the one way the open finding C06-O12 can show
+        i, ttl = e.get("id"), hist[0]["ttl"]
+        prio, at, enq_at, arr_at, req_at, gone = {}, {}, {}, {}, {}, set()
+        last_pick = -1
+        for k, x in enumerate(before):
+            n, j = x["ev"], x.get("id")
+            if n == "arrive":
+                prio[j], at[j], arr_at[j] = x["prio"], x["t"], k
+            elif n == "enq":
+                enq_at[j] = k
+            elif n == "pick":
+                last_pick = k
+            elif n == "requeue":
+                req_at[j] = k
+            elif n in ("grant", "expire", "verdict"):
+                gone.add(j)
+        over = [j for j in enq_at if j != i and j not in gone and enq_at[j] < last_pick and e["t"] < at[j] + ttl
+                and (prio[j] < prio[i] or (prio[j] == prio[i] and enq_at[j] < arr_at[i]))]
+        w["overtaken"] = sorted(over)
+        w["same_priority"] = bool(over) and all(prio[j] == prio[i] for j in over)
+        w["after_requeue"] = bool(over) and all(j in req_at for j in over)
     if w["class"] == "size-bound":
         # two requests were between the slot test and their registration at the same time
         open_slots, conc = set(), False
@@ -357,7 +388,10 @@ def report(ctx, binary, rejected):
                 left.append(x)
         todo = left
     if todo:
-        raise Broken("rejection not reproduced in 20 attempts: %s" % json.dumps([(x[0], x[5]) for x in todo])[:1500])
+        msg = "rejection not reproduced in 20 attempts: %s" % json.dumps([(x[0], x[5]) for x in todo])[:1500]
+        if not ctx.violations:
+            raise Broken(msg)                      # one flaky alarm would discredit every real one
+        ctx.notes.append(msg + " (other rejections of this run were reproduced and are reported)")
 
 
 # ---------------------------------------------------------------------------------------------- TLC parts
@@ -397,6 +431,8 @@ def random_scenario(rng, k, thorough):
     """free-running recording: concurrent arrivals with random priorities and pauses, sometimes a shutdown."""
     cfgc = {"ttl_s": rng.choice([1, 1, 2]), "queue_size": rng.choice([1, 2, 3, 4]), "qmax": rng.choice([1, 1, 2, 3]),
             "qwin_s": rng.choice([1, 1, 2]), "slack_ms": SLACK_MS}
+    if thorough:
+        cfgc["gomaxprocs"] = rng.choice([0, 1, 2, 16])
     n = rng.randint(3, 6)
     steps = []
     shut = rng.randint(1, n) if rng.random() < 0.3 else -1
@@ -512,6 +548,7 @@ def run(ctx):
     account(ctx, traces, verdicts, seen)
 
     forced = diverged = 0
+    edges = set()
     steps_of = {n: variants[n][0] for n in VARIANTS}
     for i, wk in enumerate(walks):
         steps_of["walk-%d" % i] = wk
@@ -521,7 +558,13 @@ def run(ctx):
                 diverged += 1
             elif same_modulo_verdict_position(predicted_events(steps_of[n]), observed_events(t)):
                 forced += 1
+                for st in steps_of[n]:
+                    kind = "R" if st["p"] in IDS else st["p"]
+                    edges.add((kind, st["from"], st["to"]))
     ctx.log("forced schedules: %d as predicted by the model, %d could not be followed (of %d)" % (forced, diverged, len(steps_of)))
+    missing = sorted(EDGES - edges)
+    ctx.notes.append("transitions of FlowQueueI exercised on the real code by schedules forced exactly as predicted: %d of %d%s"
+                     % (len(EDGES & edges), len(EDGES), (" (not exercised: %s)" % ", ".join("%s:%s->%s" % e for e in missing)) if missing else ""))
     ctx.notes.append("schedules of FlowQueueI forced on the real code: %d reproduced the model's observable events exactly, "
                      "%d diverged (real code left the schedule; recording still judged by P), of %d" % (forced, diverged, len(steps_of)))
     if forced < max(3, len(walks) // 4):
